@@ -94,14 +94,16 @@ impl<T: RefCnt> HybridProtection<T> {
                 Self::from_inner(unsafe { Self::new(candidate, Some(debt)).into_inner() })
             }
             Err((unused_debt, replacement)) => {
+                // We got a (possibly) different pointer out. That one is already protected. Wrap it
+                // first, so the reference we own on it is released should the decrement below run a
+                // pointee destructor that panics.
+                let replacement = unsafe { Self::new(replacement as *mut _, None) };
                 // The debt is on the candidate we provided and it is unused, we so we just pay it
                 // back right away.
                 if !unused_debt.pay::<T>(candidate) {
                     unsafe { T::dec(candidate) };
                 }
-                // We got a (possibly) different pointer out. But that one is already protected and
-                // the slot is paid back.
-                unsafe { Self::new(replacement as *mut _, None) }
+                replacement
             }
         }
     }
